@@ -74,6 +74,8 @@ def _judge(pid: str, repo: str, var: Dict[str, Any]) -> Dict[str, Any]:
                 res["detail"] = out[-600:]
         else:
             res["status"] = "silent" if rc == 0 else "FALSE-ALARM"
+            if rc == 2 and var.get("may_be_undecided") and "VIOLATION" not in out:
+                res["status"] = "undecided"
             if rc != 0:
                 res["detail"] = out[-600:]
         return res
@@ -115,9 +117,48 @@ def _seeded_variants(pid: str) -> List[Dict[str, Any]]:
     return out
 
 
+def _refactoring_variants(pid: str) -> List[Dict[str, Any]]:
+    """Independent behaviour-preserving refactorings (/verif/refactorings/<id>/patch.diff, written
+    by sub-agents that saw only the module and the instruction to preserve behaviour; each
+    confirmed: OQuPy's tests pass, the agent's equivalence digest is identical before and
+    after).  Every one of them is a silence variant of every property."""
+    out = []
+    root = os.path.join(HERE, "refactorings")
+    if not os.path.isdir(root):
+        return out
+    for d in sorted(os.listdir(root)):
+        patch_p = os.path.join(root, d, "patch.diff")
+        if not os.path.exists(patch_p):
+            continue
+
+        def apply(scratch, patch_p=patch_p):
+            p = subprocess.run(["patch", "-p1", "-s", "-i", patch_p], cwd=scratch,
+                               capture_output=True, text=True)
+            if p.returncode != 0:
+                return []
+            files = []
+            with open(patch_p) as fh:
+                for line in fh:
+                    if line.startswith("+++ b/") and line.strip().endswith(".py") \
+                            and line[6:].startswith("oqupy/"):
+                        files.append(line[6:].strip())
+            return files
+        undecided = []
+        meta_p = os.path.join(root, d, "meta.json")
+        if os.path.exists(meta_p):
+            with open(meta_p) as fh:
+                undecided = json.load(fh).get("undecided", [])
+        # where the restructuring is known to be beyond the rules (meta.json `undecided`) the
+        # check may say "cannot decide" (exit 2); it must never report a violation (exit 1)
+        out.append({"name": f"refactorings/{d}", "kind": "benign", "apply": apply,
+                    "may_be_undecided": pid in undecided})
+    return out
+
+
 def run(pid: str, repo: str, seed: int = 0) -> Dict[str, Any]:
     from selftest import mutations
-    variants = [v for v in mutations.variants(pid)] + _seeded_variants(pid)
+    variants = [v for v in mutations.variants(pid)] + _seeded_variants(pid) + \
+        _refactoring_variants(pid)
     if not variants:
         return {"variants": 0, "note": "no variants registered for this property"}
     jobs = min(16, len(variants))
@@ -132,6 +173,7 @@ def run(pid: str, repo: str, seed: int = 0) -> Dict[str, Any]:
         "caught": sum(r["status"] == "caught" for r in results),
         "silent": sum(r["status"] == "silent" for r in results),
         "inapplicable": sum(r["status"] == "inapplicable" for r in results),
+        "undecided": sum(r["status"] == "undecided" for r in results),
         "results": [{k: v for k, v in r.items() if k != "detail" or r["status"] != "caught"}
                     for r in results],
     }
